@@ -167,6 +167,9 @@ func TagValue(rule string, path string) string {
 		return d
 	case strings.HasPrefix(rule, "const:"):
 		return rule[len("const:"):]
+	case rule == "noext":
+		// the whole base name without its last extension: values with dots, dashes and underscores in them
+		return strings.TrimSuffix(base, filepath.Ext(base))
 	case rule == "sparse3":
 		// a tag for every third file only (the map function returns no tag for the others)
 		d := regexp.MustCompile(`[0-9]+`).FindString(base)
